@@ -12,6 +12,7 @@ import (
 	"math/big"
 	"sort"
 	"strings"
+	"time"
 
 	"github.com/ossrs/go-oryx-lib/aac"
 	"github.com/ossrs/go-oryx-lib/amf0"
@@ -533,21 +534,31 @@ func targets(c *hl.Ctx) []target {
 		server, comp bool
 		limit        int64
 		readMessage  bool // read through Conn.ReadMessage instead of NextReader + io.Copy
-	}{{true, false, 0, false}, {false, false, 0, false}, {true, true, 0, false}, {false, true, 0, false}, {true, false, 100, false}, {false, true, 100, false},
-		{true, false, 0, true}, {false, false, 0, true}, {false, true, 0, true}, {true, false, 100, true}} {
+		closeFirst   bool // the application has sent its own Close (closing handshake) and keeps reading for the peer's
+	}{{true, false, 0, false, false}, {false, false, 0, false, false}, {true, true, 0, false, false}, {false, true, 0, false, false}, {true, false, 100, false, false}, {false, true, 100, false, false},
+		{true, false, 0, true, false}, {false, false, 0, true, false}, {false, true, 0, true, false}, {true, false, 100, true, false},
+		{true, false, 0, false, true}, {false, false, 0, false, true}, {false, true, 0, true, true}} {
 		cf := cf
 		name := fmt.Sprintf("websocket.Read/server=%v,compression=%v,limit=%d", cf.server, cf.comp, cf.limit)
 		if cf.readMessage {
 			name += ",api=ReadMessage"
 		}
+		if cf.closeFirst {
+			name += ",close-sent-first"
+		}
+		var lastWS *websocket.Conn
 		fr := func(op byte, fin bool, rsv1 bool, p []byte) []byte {
 			return wsref.Frame{Fin: fin, Opcode: op, Rsv1: rsv1, Masked: cf.server, Key: [4]byte{1, 2, 3, 4}, Len: uint64(len(p)), Payload: p}.Bytes()
 		}
 		ts = append(ts, target{name: name, small: 2, run: func(b []byte) {
 			mem := &wsx.Conn{In: b}
 			ws := websocket.VerifNewConn(mem, cf.server, 128, 128, cf.comp)
+			lastWS = ws
 			if cf.limit > 0 {
 				ws.SetReadLimit(cf.limit)
+			}
+			if cf.closeFirst {
+				ws.WriteControl(websocket.CloseMessage, websocket.FormatCloseMessage(1000, "bye"), time.Now().Add(time.Hour))
 			}
 			for i := 0; i < 100000; i++ {
 				if cf.readMessage {
@@ -586,6 +597,13 @@ func targets(c *hl.Ctx) []target {
 				return append(b, fr(0, true, false, nil)...)
 			}},
 			{"one-big-message", func(n int) []byte { return fr(2, true, false, hl.Pattern(n, 2)) }},
+		}, post: func() string {
+			// single goroutine, the call has returned: the write token must be back (the reader answers pings and closes
+			// through WriteControl; a token that is not returned makes every later reply block for the write wait)
+			if lastWS != nil && !websocket.VerifWriteTokenFree(lastWS) {
+				return "after the call the connection's write token is missing although no write is in progress: the reader's next control-frame reply blocks until its deadline (1 s per ping), every other write for ever"
+			}
+			return ""
 		}})
 	}
 
